@@ -849,7 +849,13 @@ func genDescPlugin(r *Rng, ninputs int) *sx.Node {
 			outs.Append(sx.L(sx.S(oid), o, g.display(40), sx.B(j == 1)))
 		}
 		sh := g.signals(depth, "h")
-		se := g.signals(depth, "e")
+		// a step may emit a signal under the very key under which it handles one (two maps of the step description:
+		// "signal_handlers" and "signal_emitters"): in a third of the steps the emitters reuse the handlers' keys
+		ePrefix := "e"
+		if r.Chance(33) {
+			ePrefix = "h"
+		}
+		se := g.signals(depth, ePrefix)
 		steps.Append(sx.L(sx.A("step"), sx.S(sid), in, outs, sh, se, g.display(50)))
 		scopes = append(scopes, outScopes...)
 		for _, s := range sh.List {
